@@ -69,6 +69,7 @@ fn run(a: &[String], data: Vec<u8>) {
                     "inv_ntt" => { black_box(vh::inv_ntt::<1>(&[cent])); }
                     "mat_vec_mul" => { black_box(vh::mat_vec_mul::<1, 1>(&[[modq]], &[cent])); }
                     "to_mont" => { black_box(vh::to_mont::<1>(&[cent])); }
+                    "half_byte" => { for x in raw { black_box(vh::coeff_from_half_byte::<true>(2, (x & 15) as u8)); black_box(vh::coeff_from_half_byte::<true>(4, ((x >> 4) & 15) as u8)); } }
                     "reductions" => { for x in cent { black_box(vh::mont_reduce(i64::from(x) * i64::from(modq[7]))); black_box(vh::partial_reduce32(x)); black_box(vh::full_reduce32(x)); } }
                     other => panic!("unknown kernel {}", other),
                 }
